@@ -244,6 +244,7 @@ class Accumulate(Harness):
                 items = {"X": val}
                 if mismatch and serial == sum(counts) - 1:
                     items = {"X": lib.common.IntParameter(60000, 64000), "EXTRA": lib.common.IntParameter(7)} if mm == 1 else {"Y": lib.common.IntParameter(60000, 64000)}
+                items = dict({"H": lib.common.IntParameter(3)}, **items)        # a field every packet has (as the header items of a real packet)
                 p = StubPacket(items, bv.SymInt(ap, nb=11, nonneg=True))
                 lst.append(p)
                 allp.append((ap, serial, p))
@@ -255,7 +256,8 @@ class Accumulate(Harness):
                 param = lib.parameters.Parameter("X", lib.parameter_types.IntegerParameterType("T", lib.encodings.IntegerDataEncoding(16, "unsigned")))
                 ex = lib.parameters.Parameter("EXTRA", lib.parameter_types.IntegerParameterType("T2", lib.encodings.IntegerDataEncoding(8, "unsigned")))
                 yy = lib.parameters.Parameter("Y", lib.parameter_types.IntegerParameterType("T3", lib.encodings.IntegerDataEncoding(16, "unsigned")))
-                super().__init__([lib.containers.SequenceContainer("CCSDSPacket", [param, ex, yy])])
+                hh = lib.parameters.Parameter("H", lib.parameter_types.IntegerParameterType("T4", lib.encodings.IntegerDataEncoding(8, "unsigned")))
+                super().__init__([lib.containers.SequenceContainer("CCSDSPacket", [hh, param, ex, yy])])
                 self.calls = 0
 
             def packet_generator(self, f, **kw):
@@ -272,6 +274,9 @@ class Accumulate(Harness):
         class XR:
             @staticmethod
             def Dataset(data_vars=None, **k):   # noqa: N802
+                # xarray's contract: variables sharing a dimension must have the same length ("conflicting sizes for dimension")
+                if len({len(v[1][1]) for v in data_vars.values() if isinstance(v, tuple) and isinstance(v[1], tuple)}) > 1:
+                    raise ValueError("conflicting sizes for dimension")
                 return {k2: v for k2, v in data_vars.items()}
         saved = (xarr.np, xarr.xr)
         xarr.np, xarr.xr = NP, XR
